@@ -81,6 +81,7 @@ Inductive err :=
   | EBracketId | ENoFreeSlot                                                  (* manager asserts *)
   | EPendingDup | ESkippedLevel | ENotPendingSanity                           (* scheduler asserts *)
   | EBadRungs                                                                 (* constructor asserts *)
+  | EKeyNone                                                                  (* dehb.py: _trial_info[None] *)
   | EInternal.                                                                (* IndexError/TypeError: unreachable states *)
 
 Inductive result (A : Type) := Ok (a : A) | Error (e : err).
@@ -690,8 +691,10 @@ Definition trial_id_from_parent_slot (m : mgr) (bid : nat) (lv : Z) (si : nat) :
 
 (* DEHB event sequences on the bracket manager: DNext = a request for work (the job is remembered
    as outstanding); DRet i t v = the (i mod #outstanding)-th outstanding job returns with trial id t
-   (DEHB assigns the trial id of every job itself) and metric v (NaN = failed). *)
-Inductive dop := DNext | DRet (i : nat) (t : Z) (v : mval).
+   (DEHB assigns the trial id of every job itself) and metric v;
+   DFail i = that job is reported as failed the way dehb.py does it (_report_as_failed, from
+   on_trial_error or when no config could be drawn): trial id None, metric NaN. *)
+Inductive dop := DNext | DRet (i : nat) (t : Z) (v : mval) | DFail (i : nat).
 Record dstate := mkD { d_mgr : mgr; d_out : list job }.
 
 Fixpoint remove_nth {A} (l : list A) (i : nat) : list A :=
@@ -701,6 +704,22 @@ Fixpoint remove_nth {A} (l : list A) (i : nat) : list A :=
   | x :: r, S j => x :: remove_nth r j
   end.
 
+Definition danswer (st : dstate) (i : nat) (tr : tid) (v : mval) : result dstate :=
+  match d_out st with
+  | [] => Ok st
+  | _ =>
+      let k := Nat.modulo i (length (d_out st)) in
+      match nth_error (d_out st) k with
+      | None => Error EInternal
+      | Some (bid, s) =>
+          match dehb_mgr_on_result (d_mgr st) bid
+                  (mkSIR (rung_index s) (level s) (slot_index s) tr (Some v)) with
+          | Ok (m', _) => Ok (mkD m' (remove_nth (d_out st) k))
+          | Error e => Error e
+          end
+      end
+  end.
+
 Definition dstep (st : dstate) (o : dop) : result dstate :=
   match o with
   | DNext =>
@@ -708,21 +727,8 @@ Definition dstep (st : dstate) (o : dop) : result dstate :=
       | Ok (m', j) => Ok (mkD m' (d_out st ++ [j]))
       | Error e => Error e
       end
-  | DRet i t v =>
-      match d_out st with
-      | [] => Ok st
-      | _ =>
-          let k := Nat.modulo i (length (d_out st)) in
-          match nth_error (d_out st) k with
-          | None => Error EInternal
-          | Some (bid, s) =>
-              match dehb_mgr_on_result (d_mgr st) bid
-                      (mkSIR (rung_index s) (level s) (slot_index s) (Some t) (Some v)) with
-              | Ok (m', _) => Ok (mkD m' (remove_nth (d_out st) k))
-              | Error e => Error e
-              end
-          end
-      end
+  | DRet i t v => danswer st i (Some t) v
+  | DFail i => danswer st i None NaN
   end.
 Fixpoint drun (st : dstate) (ops : list dop) : result dstate :=
   match ops with
@@ -731,3 +737,31 @@ Fixpoint drun (st : dstate) (ops : list dop) : result dstate :=
   end.
 Definition drun_from (first : rung_system) (md : mode) (nb : option nat) (ops : list dop) : result dstate :=
   match dehb_mgr_init first md nb with Ok m => drun (mkD m []) ops | Error e => Error e end.
+
+(* ---- dehb.py: which trial ids the selection skeleton reads -------------------------------
+   _mutation(ext_slot) picks three positions in the parent pool (size_of_current_rung, extended by
+   the global pool of finished trials when smaller than 3) and turns each position into a trial id;
+   _de_mutation then reads self._trial_info[trial_id] for each of them (KeyError if it is None).
+   [global_pool]: trial ids of finished trials; [random_trial]: what _draw_random_trial_id returns.
+   The float vectors (mutation / cross-over arithmetic) are not modelled. *)
+Definition mutation_parent (m : mgr) (bid : nat) (is_base_rung : bool) (lv : Z)
+           (orig_pool_size : nat) (global_pool : list Z) (random_trial : Z) (pos : nat) : result tid :=
+  if Nat.leb orig_pool_size pos then
+    match nth_error global_pool (pos - orig_pool_size) with
+    | Some t => Ok (Some t)
+    | None => Error EInternal
+    end
+  else if is_base_rung then
+    match trial_id_from_parent_slot m bid lv pos with
+    | Ok None => Ok (Some random_trial)
+    | r => r
+    end
+  else top_of_previous_rung m bid pos.
+
+(* self._trial_info[trial_id]: a None key is the KeyError of finding F-C13-3 / F-C05-3 *)
+Definition read_trial_info (r : result tid) : result Z :=
+  match r with
+  | Ok (Some t) => Ok t
+  | Ok None => Error EKeyNone
+  | Error e => Error e
+  end.
